@@ -17,6 +17,7 @@ NEXT Next
 INVARIANT InvBook
 INVARIANT InvDecl
 INVARIANT InvFold
+INVARIANT InvAbs
 %(emit)s
 CHECK_DEADLOCK FALSE
 """
@@ -88,6 +89,19 @@ def run(prop, tier, seed, replay=None):
                         seen.add(key)
                         tok_args.append(('A-%s%06d' % ((opts[0][:1] if opts else 'p') + str(L), len(seen)), c['toks'], opts, None,
                                          seed + len(seen)))
+            # symbolic run: the bookkeeping invariant of the abstract automaton (BracketAbs, tied to RdStep by InvAbs
+            # above) is inductive - it holds after token sequences of EVERY length (Apalache)
+            for (what, init, inv, length, want) in (('base case', 'Init', 'IndInv', 0, 'NoError'),
+                                                    ('induction step', 'IndInit', 'IndInv', 1, 'NoError'),
+                                                    ('non-vacuity: termCnt is always 1', 'Init', 'NotInv', 6, 'Error')):
+                outcome, wall_a, out_a = core.apalache(w, 'Apa_BracketAuto', inv, length=length, init=init, timeout=900)
+                if outcome != want:
+                    raise core.MachineryError('Apalache on Apa_BracketAuto (%s): outcome %s, expected %s\n%s'
+                                              % (what, outcome, want, out_a[-2000:]))
+                rep.extra.setdefault('symbolic_runs', []).append(
+                    {'tool': 'apalache-mc 0.58', 'module': 'Apa_BracketAuto', 'what': what, 'init': init, 'invariant': inv,
+                     'length': length, 'outcome': outcome, 'wall_s': round(wall_a, 1),
+                     'scope': 'token sequences of every length, every first id, brackets_emptypos on or off'})
             nv = core.tlc(w, 'MCBA', CFG_A % dict(L=5, opts='', dev='"truncated_group_silent"', emit=''), timeout=600)
             if 'InvDecl' not in nv.violated:
                 raise core.MachineryError('non-vacuity: truncated_group_silent not detected')
